@@ -19,6 +19,7 @@ func init() {
 		"(1) PREFIXLEN: the number of key bits trie.Prefix2bin128 emits and the PrefixLen cidrToBpfLpmKey writes are both functions of (prefix length, is-IPv4) only; both are propagated for every prefix length 0..128 / 0..32 and must equal bits + 96·[IPv4], including length 0; " +
 		"(2) MAPPED: every probe key is built from the 16-byte (IPv4-mapped) form with length 128, in the routing matcher and the DNS response matcher; (3) SHARE: an existing LPM set is reused only under prefixesEqual, canonicalisation precedes hashing, the two IP emitters are structurally identical, the MAC emitter never shares; prefixesEqual compares length and every element; " +
 		"(4) WALK: the trie's prefix walk tests the leaf flag at every visited node before descending and again at the end; (5) ERR: trie construction errors are returned by every build path. " +
+		"(6) HOSTLEN: parsePrefixes, folded over one literal of every class its substring tests can distinguish, gives a bare IPv6 literal (also with a dotted tail) /128, a bare IPv4 literal /32 and leaves explicit lengths alone. " +
 		"Not decided: trie construction/traversal on concrete values (rank/select arithmetic), kernel LPM semantics."})
 }
 
@@ -28,6 +29,7 @@ func runC12(c *Ctx) {
 	c12Share(c)
 	c12Walk(c)
 	c12Err(c)
+	c12HostLen(c)
 }
 
 func c12PrefixLen(c *Ctx) {
